@@ -325,9 +325,21 @@ func cmdCheck(args []string) int {
 		}
 		path := writeReplay(rf)
 		// fresh-process replay must reproduce it exactly
-		cmd := exec.Command(self, "replay", "--quiet", path)
-		cmd.Env = append(os.Environ(), "VERIF_DIR="+verifDir())
-		err := cmd.Run()
+		// a finding about nondeterminism (C08) shows with some probability per execution: its replay
+		// gets several attempts, any reproduction counts; every other replay must reproduce at once
+		attempts := 1
+		if baseProp(*prop) == "C08" {
+			attempts = 5
+		}
+		var err error
+		for a := 0; a < attempts; a++ {
+			cmd := exec.Command(self, "replay", "--quiet", path)
+			cmd.Env = append(os.Environ(), "VERIF_DIR="+verifDir())
+			err = cmd.Run()
+			if ee, ok := err.(*exec.ExitError); ok && ee.ExitCode() == 1 {
+				break
+			}
+		}
 		code := 0
 		if ee, ok := err.(*exec.ExitError); ok {
 			code = ee.ExitCode()
